@@ -219,8 +219,8 @@ theorem epilogue_before_notify {w w' : World} {c : TCtl} {b n : Nat}
     rw [if_pos h3] at h
     refine dropPass_quiet ?_ h
     intro w1 w2 h2
-    exact ⟨@branch_keeps (w1.modCtl w.tid fun c => { c with fin := 1 }) w2 _ _ _ h2,
-      fun i hi => @branch_terminated (w1.modCtl w.tid fun c => { c with fin := 1 }) w2 _ _ _ h2 i hi⟩
+    exact ⟨@branch_keeps (w1.modCtl w.tid fun c => { c with fin := 1 }) w2 _ _ _ _ h2,
+      fun i hi => @branch_terminated (w1.modCtl w.tid fun c => { c with fin := 1 }) w2 _ _ _ _ h2 i hi⟩
 
 /-- the branch point of `notify` in the epilogue of a spawned thread is the head of the destructor loop
 with an EMPTY queue (`fin = 4`, `dtorQueue = []`): it terminates nobody and raises no flag -/
